@@ -398,9 +398,9 @@ class MaskSel:
         self.n = n
         self.mask_get = mask.getter()
         o = cx.ordinal("masksel")
-        self.count = z3.Int(f"{tag}_count!{o}")
-        self.pos = z3.Function(f"{tag}_pos!{o}", T.I, T.I)
-        self.rank = z3.Function(f"{tag}_rank!{o}", T.I, T.I)
+        self.count = cx.new_const(f"{tag}_count!{o}", "int")
+        self.pos = cx.new_fn(f"{tag}_pos!{o}", "int", "int")
+        self.rank = cx.new_fn(f"{tag}_rank!{o}", "int", "int")
         k, j = z3.Ints(f"mk!{o} mj!{o}")
         mg = self.mask_get
         cx.fact(z3.And(self.count >= 0, self.count <= T.zi(n)), "numpy:boolean-index")
